@@ -66,6 +66,7 @@ pub fn run_prop(prop: &'static str, sem: hist::Sem, seed: u64, run: u64) -> Repo
             Ev::Request { kind, path, pos, .. } => json!({"request": format!("{kind:?}"), "path": path, "pos": pos}),
             Ev::RenameLoop { path, pos, new_name } => json!({"rename_loop": path, "pos": pos, "new_name": new_name}),
             Ev::Folder { add, b } => json!({"folder_added": add, "second_folder": b}),
+            Ev::FolderReadd { b } => json!({"folder_removed_and_added_in_one_notification": true, "second_folder": b}),
             Ev::DiskDelete { path } => json!({"deleted_on_disk": path}),
             Ev::DiskRestore { path } => json!({"restored_on_disk": path}),
             Ev::Checkpoint => json!("checkpoint: quiesce, compare with a fresh server"),
@@ -123,7 +124,9 @@ pub fn validate(prop: &'static str, sem: hist::Sem, seed: u64, run: u64) -> Repo
     std::env::remove_var("OALSIM_REAL_LSP");
     let mut violation = None;
     let verdict = |o: &crate::lsp_sim::Outcome| o.violation.as_ref().map(|v| v.signature.clone());
-    if a.discarded.is_none() && b.discarded.is_none() {
+    // the drift oracle needs the in-process hook; it has no counterpart on the real process
+    let drift_only = a.violation.as_ref().map(|v| v.oracle == "document-drift").unwrap_or(false);
+    if a.discarded.is_none() && b.discarded.is_none() && !drift_only {
         if verdict(&a) != verdict(&b) {
             violation = Some(found_from(
                 prop,
